@@ -6,7 +6,7 @@ ID = 'C02'
 LEVEL = 'exploration'
 RULE = ('Hypothesis rule-based state machine over a multi-user repository (rules: add_user shared/clone/independent, '
         'snapshot of a file set from a shared content pool, delete of own snapshots, clean, restore, list, two '
-        'non-destructive commands at once; fresh or long-lived Repository objects). After every step an independent '
+        'non-destructive commands at once; delete/clean whose n-th backend delete/download/list/exists call fails for good; fresh or long-lived Repository objects). After every step an independent '
         'reader decodes every live snapshot from the raw objects and compares with the captured bytes/mtimes; every '
         'third step replicat itself restores one. Non-trivial: a delete/clean ran while a remaining snapshot shared '
         'chunks with a deleted one, or with >=2 users; distinct by SHA-256 of (config, op list).')
@@ -35,7 +35,7 @@ def outcome_of(sim, case):
 
 def machine(tier, ctx):
     import sys
-    return hist.make_machine(sys.modules[__name__], tier, ctx, checks=CHECKS)
+    return hist.make_machine(sys.modules[__name__], tier, ctx, checks=CHECKS, weights=dict(faulty=1))
 
 
 def run_case(case):
